@@ -138,7 +138,7 @@ func init() {
 			sort.Slice(ks, func(i, j int) bool { return ks[i] < ks[j] })
 			// model: value per key after each completed op
 			check := func(label string, v *vfs, done int, errs []error, stopped bool) {
-				e.evals++
+				e.evals.Add(1)
 				model := map[uint][]byte{}
 				for i := 0; i < done; i++ {
 					if errs[i] != nil {
@@ -177,7 +177,7 @@ func init() {
 						for _, nv := range [][]byte{fsVal("after", 12), fsVal("after-restart-long", 70)} {
 							v2 := v.clone()
 							_, errs2, _ := runFS(v2, []fsOp{{"save", k, nv, 2}})
-							e.evals++
+							e.evals.Add(1)
 							if errs2[0] != nil {
 								e.violate("C19", "save-fails-after-restart", "%v %s, then Save(%#x): %v", h, label, k, errs2[0])
 								continue
